@@ -9,7 +9,7 @@ def run(ctx):
     ctx.tlc_must_pass("MC_C07", cfg="MC_C07" if ctx.quick else "MC_C07_thorough", workers=16, heap="6g")
     q = ctx.quick
     jobs = [["c07", "gen", 900 if q else 12000] for _ in range(4)] + [["c07", "mut", 4 if q else 40] for _ in range(6)] \
-        + [["c07", "pairs", i, 2] for i in range(2)] + [["c07", "small", 5 if q else 6, i, 3] for i in range(3)] + [["c07", "addc", 400 if q else 5000]]
+        + [["c07", "pairs", i, 2] for i in range(2)] + [["c07", "small", 5 if q else 6, i, 3] for i in range(3)] + [["c07", "addc", 400 if q else 5000]] + [["c07", "extreme"]]
     wfile = os.path.join(ctx.scratch, "weights.json")
     def one(i):
         raw = os.path.join(ctx.scratch, "p%02d.raw" % i); out = os.path.join(ctx.scratch, "p%02d.ndjson" % i)
